@@ -348,8 +348,30 @@ def run(ctx: Ctx):
             # facts: limits falsy or ok(...) true
             cl = facts.holds(node, lambda t, p: ("limits" in t and not p and ".ok(" not in t) or (p and "limits.ok(" in t) or
                              ("hasattr(limits" in t and not p))
-            ctx.ob("R05.1", f"{avail.qual}: return True only when own limits allow the slot", (avail, r), cl is not None,
-                   f"fact: {sorted(cl)}" if cl else "available() can answer True although the resource's limit refuses the slot",
+            walk_note = None
+            if cl is None:
+                # the walk form: one loop over the resource itself and every enclosing group, left only through `return False` or
+                # when the chain is exhausted -- the `return True` behind it is reached after every holder allowed the slot
+                for w in own_nodes(avail):
+                    if not (isinstance(w, ast.While) and isinstance(w.test, ast.Name) and not w.orelse):
+                        continue
+                    v = w.test.id
+                    inits = [d for d in own_nodes(avail) if isinstance(d, (ast.Assign, ast.AnnAssign)) and d.value is not None and d.lineno < w.lineno
+                             and any(isinstance(t, ast.Name) and t.id == v for t in (d.targets if isinstance(d, ast.Assign) else [d.target]))]
+                    if not inits or norm(max(inits, key=lambda d: d.lineno).value) != "self.property":
+                        continue
+                    if any(isinstance(x, ast.Break) for x in ast.walk(w)):
+                        continue
+                    steps = [d for d in ast.walk(w) if isinstance(d, ast.Assign) and any(isinstance(t, ast.Name) and t.id == v for t in d.targets)]
+                    if not steps or any(norm(d.value) != f"{v}.parent" for d in steps):
+                        continue
+                    refuses = [c for c in a_own + a_anc if any(c is x for x in ast.walk(w))]
+                    hdr = g.node_of(w)
+                    if refuses and hdr is not None and g.all_paths_pass(g.entry, node, lambda n, hdr=hdr: n.id == hdr.id):
+                        walk_note = f"reached only after the walk `while {v}` from the resource up its parents, which leaves early with False on a refusing limit"
+            ctx.ob("R05.1", f"{avail.qual}: return True only when own limits allow the slot", (avail, r), cl is not None or walk_note is not None,
+                   (f"fact: {sorted(cl)}" if cl else walk_note) if (cl or walk_note) else
+                   "available() can answer True although the resource's limit refuses the slot",
                    key="R05.1|available|own fact")
     # task side
     t_chk = [c for c in own_nodes(lok) if isinstance(c, ast.Call) and isinstance(c.func, ast.Attribute) and c.func.attr == "ok"]
